@@ -433,6 +433,30 @@ def explicit(vals):
     return f"{hx(len(vals))} " + " ".join(hx(v) for v in vals)
 
 
+def gen_rle_hostile(rng, tier):
+    """hostile run-length streams for the capacity-taking RLE decoders: run lengths above the capacity, equal to the room
+    left, 0 in the middle, and close to 2^64 (a sum decoded-so-far + run length that wraps)"""
+    ops = []
+    big = [M64, M64 - 1, M64 - 2, M64 - 4, M64 - 99, 1 << 63, (1 << 63) + 5, (1 << 32), (1 << 32) - 1]
+    for cap in (0, 1, 2, 7, 100, 128, 1000):
+        for hdr in (0, 1):
+            shapes = []
+            for b in big:
+                shapes.append([(5, 7), (b, 9)])
+                shapes.append([(1, 7), (b - 1, 9), (3, 4)])
+                shapes.append([(b, 9)])
+            shapes += [[(cap, 3)], [(cap + 1, 3)], [(max(cap, 1) - 1, 3), (1, 4), (1, 5)], [(2, 3), (0, 9), (4, 4)],
+                       [(cap // 2, 1), (cap - cap // 2, 2), (1, 3)], [(3, 1)] * 5]
+            if tier == "quick":
+                shapes = [sh for sh in shapes if rng.random() < 0.45]
+            for sh in shapes:
+                totals = [0] if not hdr else sorted({cap, max(cap, 1) - 1, sum(min(a, 1 << 20) for a, _ in sh) % (cap + 1)})
+                for total in totals:
+                    ops.append(f"rle.cap cap={hx(cap)} hdr={hdr} total={hx(total)} " +
+                               " ".join(f"{hx(a & M64)} {hx(v)}" for a, v in sh))
+    return ops
+
+
 def gen_arrays(rng, tier, codecs=None):
     codecs = codecs or ARRAY_CODECS
     lens = LENS_QUICK if tier == "quick" else LENS_THOROUGH
